@@ -45,17 +45,21 @@ Section Lookup.
     let p2 := (al, of_nat N (n - 1)) in
     to_idx N (calc_frac p1 p2 x).
 
-  Definition lower_index (ax : list T) (x : T) : outcome nat :=
+  (* the lookup with the guess abstracted: [gf ax x a0 al] is whatever index the O(1)
+     estimate produced (None = the cast failed) *)
+  Definition lower_index_g (gf : list T -> T -> T -> T -> option Z)
+      (ax : list T) (x : T) : outcome nat :=
     let n := length ax in
     a0 <- idx ax 0 ;;
     if leb N x a0 then Ok 0 else                       (* x <= self[0] *)
     n1 <- usub n 1 ;;
     al <- idx ax n1 ;;
     if geb N x al then usub n 2 else                   (* x >= self[len-1] -> len-2 *)
-    match guess ax x a0 al with
+    match gf ax x a0 al with
     | None => Panic                                    (* unimplemented!("failed to convert") *)
     | Some gz =>
         if (Z.of_nat n <=? gz)%Z then Panic            (* self[mid_idx] out of bounds *)
+        else if (gz <? 0)%Z then Panic                 (* cannot happen for a usize *)
         else
           let g := Z.to_nat gz in
           mx <- idx ax g ;;
@@ -65,5 +69,7 @@ Section Lookup.
             else bsearch (S n) ax x g n1
           else bsearch (S n) ax x 0 g
     end.
+
+  Definition lower_index : list T -> T -> outcome nat := lower_index_g guess.
 
 End Lookup.
